@@ -282,8 +282,10 @@ theorem step_lead_only_while_leader (lw : LWorld) (e : LEvent)
         simp only [stepLeader, hd', Bool.false_eq_true, if_false] at h
         split at h <;> simp at h
       | idle => simp [stepLeader, hd'] at h
+      | tick => simp [stepLeader, hd'] at h
     | some l =>
       cases e with
+      | tick => simp only [stepLeader, hd', Bool.false_eq_true, if_false] at h ⊢; exact finish_lead _ _ _ h
       | start =>
         simp only [stepLeader, hd', Bool.false_eq_true, if_false] at h ⊢
         exact hinv (by simp)
@@ -606,6 +608,22 @@ theorem hbStep_same (a : Acc) (peer : Nat) (ans : HbAnswer) : SameCfg a (hbStep 
 theorem cleanup_same (a : Acc) : SameCfg a (cleanup a) := by
   unfold cleanup; simp only []; split <;> exact ⟨rfl, rfl, rfl, rfl⟩
 
+theorem leaseLoop_same (fuel : Nat) (a : Acc) : SameCfg a (leaseLoop fuel a) := by
+  induction fuel generalizing a with
+  | zero => exact SameCfg.refl a
+  | succ n ih =>
+    unfold leaseLoop
+    split
+    · exact SameCfg.refl a
+    · simp only []
+      split
+      · exact ⟨rfl, rfl, rfl, rfl⟩
+      · exact SameCfg.trans ⟨rfl, rfl, rfl, rfl⟩ (ih _)
+
+theorem tickStep_same (a : Acc) : SameCfg a (tickStep a) := by
+  unfold tickStep
+  exact SameCfg.trans ⟨rfl, rfl, rfl, rfl⟩ (leaseLoop_same _ _)
+
 theorem logKind_ne5 (c : Call) (k : Nat × Nat) (h : logKind c = some k) : k.1 ≠ 5 := by
   cases c <;> simp [logKind] at h <;> (subst h; simp)
 
@@ -690,8 +708,12 @@ theorem lead_one_uncommitted_config (lw : LWorld) (e : LEvent) (hne : ∀ ev, e 
         simp only [stepLeader, hd', Bool.false_eq_true, if_false] at hl
         split at hl <;> simp at hl
       | idle => simp [stepLeader, hd'] at hl
+      | tick => simp [stepLeader, hd'] at hl
     | some l =>
       cases e with
+      | tick =>
+        simp only [stepLeader, hd', Bool.false_eq_true, if_false] at hl ⊢
+        exact fin _ _ ((hw l).same (tickStep_same _)) hl
       | start => simp only [stepLeader, hd', Bool.false_eq_true, if_false]; exact hinv
       | heartbeatTimeout => simp only [stepLeader, hd', Bool.false_eq_true, if_false]; exact hinv
       | idle => simp only [stepLeader, hd', Bool.false_eq_true, if_false]; exact hinv
@@ -706,7 +728,7 @@ theorem lead_one_uncommitted_config (lw : LWorld) (e : LEvent) (hne : ∀ ev, e 
         exact fin _ _ ((hw l).same ⟨rfl, rfl, rfl, rfl⟩) hl
       | hb p a =>
         simp only [stepLeader, hd', Bool.false_eq_true, if_false] at hl ⊢
-        exact fin _ _ ((hw l).same (hbStep_same _ _ _)) hl
+        exact fin _ _ (((hw l).same (by split <;> exact ⟨rfl, rfl, rfl, rfl⟩)).same (hbStep_same _ _ _)) hl
       | rpc ev => exact absurd rfl (hne ev)
 
 /-- non-vacuity: a three-voter leader, a membership call served at once, a second one that has to
@@ -776,5 +798,46 @@ theorem refused_without_leader (lw : LWorld) (cs : List (Nat × Call)) (f : Opti
   simp only at hl hd
   subst hl
   simp [stepLeader, hd, idleObs]
+
+end SV
+
+namespace SV
+
+/-! ## the lease -/
+
+/-- **C13.**  When a lease check falls due and fewer voters than a quorum (the leader itself
+    included, if it is one) have answered within the lease, the server is a follower afterwards. -/
+theorem lease_deposes_without_quorum (fuel : Nat) (a : Acc) (hrole : a.v.role = .leader)
+    (hdue : a.lead.leaseAt ≤ a.lead.now)
+    (hq : (leaseCount a.v a.lead a.lead.leaseAt).1 < quorumOf a.v.latest) :
+    (leaseLoop (fuel + 1) a).v.role = .follower := by
+  unfold leaseLoop
+  have h1 : ¬ (a.v.role ≠ .leader ∨ a.lead.leaseAt > a.lead.now) := by
+    intro h; rcases h with h | h
+    · exact h hrole
+    · omega
+  rw [if_neg h1]
+  simp only [hq, if_true]
+
+/-- a check that finds a quorum re-arms the timer no further than one lease ahead (and at least
+    `minCheckInterval`): a leader is never left unchecked for longer than the lease -/
+theorem lease_rearmed_within_lease (a : Acc) :
+    let r := leaseCount a.v a.lead a.lead.leaseAt
+    max (leaseMs - r.2) minCheckMs ≤ leaseMs ∧ minCheckMs ≤ max (leaseMs - r.2) minCheckMs := by
+  simp only [leaseMs, minCheckMs]; omega
+
+/-- the lease check never makes a leader of anybody and never touches term, log or configuration -/
+theorem leaseLoop_role (fuel : Nat) (a : Acc) :
+    (leaseLoop fuel a).v.role = a.v.role ∨ (leaseLoop fuel a).v.role = .follower := by
+  induction fuel generalizing a with
+  | zero => exact Or.inl rfl
+  | succ n ih =>
+    unfold leaseLoop
+    split
+    · exact Or.inl rfl
+    · simp only []
+      split
+      · exact Or.inr rfl
+      · exact ih _
 
 end SV
